@@ -7,7 +7,7 @@ Require Import BB.Gen.Grammar BB.Gen.TablesXsl.
 Require Import BB.Base.Dict BB.Model.Peg BB.Model.Types BB.Proofs.Tables BB.Proofs.EscapeLossless.
 Require Import BB.Proofs.Totality BB.Proofs.PegPlain BB.Proofs.EscapedTextParses.
 Require Import BB.Model.UnparseDoc BB.Proofs.UnparseText BB.Proofs.PegLine BB.Proofs.WrittenText BB.Proofs.LineRule.
-Require Import BB.Base.Dict BB.Model.Types BB.Model.Peg BB.Gen.TablesParser BB.Model.Convert BB.Model.Eid BB.Model.EidSpec BB.Model.PreParse BB.Model.XmlGen BB.Gen.TablesLibs BB.Proofs.Totality BB.Proofs.PlainLineConvert BB.Proofs.ParagraphRoundTrip BB.Proofs.HierElement BB.Proofs.HierElementConvert BB.Proofs.HierNoHeading BB.Proofs.HierNoHeadingConvert BB.Proofs.SectionRoundTrip.
+Require Import BB.Base.Dict BB.Model.Types BB.Model.Peg BB.Gen.TablesParser BB.Model.Convert BB.Model.Eid BB.Model.EidSpec BB.Model.PreParse BB.Model.XmlGen BB.Gen.TablesLibs BB.Proofs.Totality BB.Proofs.PlainLineConvert BB.Proofs.ParagraphRoundTrip BB.Proofs.HierElement BB.Proofs.HierElementConvert BB.Proofs.HierNoHeading BB.Proofs.HierNoHeadingConvert BB.Proofs.SectionRoundTrip BB.Proofs.CrossheadingConvert BB.Proofs.CrossheadingRoundTrip.
 
 (* the hand-maintained keyword list of escape-prefixes covers every keyword literal of the grammar,
    except the committed gaps *)
@@ -195,3 +195,22 @@ Example C06_section_round_trip_no_heading_example :
                      (of_string "(a)") (of_string "SEC 2. - **x** {{^y}} \\ //z P{a b}") in
   convert (of_string "/akn/za/act/2009/1") (of_string "hier_element") (of_string "sec_1") (unparse_doc x) = OkR x.
 Proof. vm_compute. reflexivity. Qed.
+
+
+(* ... and for a crossheading (`CROSSHEADING text`, blank line): unparsing <crossHeading eId="<prefix__>crossHeading_1">t</crossHeading> and
+   converting the written text back - first alternative of rule hier_element, to_dict, XML builder, post-processing, eIds - gives that very
+   element, for every text without tab or line break and without blanks at its ends, whatever it spells (Proofs/CrossheadingRoundTrip.v).
+   The empty crossheading is excluded by [line_text]: it does not survive the trip (known finding F7a). *)
+Theorem C06_crossheading_round_trip : forall uri prefix s root_meta att_meta,
+  assoc_str uri meta_templates = Some (root_meta, att_meta) ->
+  line_text s ->
+  let x := El CHT [(EID, candidate prefix CHT (of_string "1"))] [Tx s] in
+  convert uri (of_string "hier_element") prefix (unparse_doc x) = OkR x.
+Proof. exact crossheading_round_trip. Qed.
+Print Assumptions C06_crossheading_round_trip.
+
+Example C06_crossheading_round_trip_example :
+  let x := El CHT [(EID, of_string "part_1__crossHeading_1")] [Tx (of_string "CROSSHEADING PART 1 - **x** {{^y}} \\ //z P{a b} }}")] in
+  convert (of_string "/akn/za/act/2009/1") (of_string "hier_element") (of_string "part_1") (unparse_doc x) = OkR x.
+Proof. vm_compute. reflexivity. Qed.
+
